@@ -172,16 +172,18 @@ Inductive arr := AProf | APerr | ADp.
 Inductive op := ONorm (m : nmeth) | OUnnorm | ORead (a : arr) | OEe | ORi.
 
 (* float ops with NaN propagation; the scalar may itself be NaN *)
+(* results are kept in lowest terms ([Qred]): a history of normalisations would otherwise square
+   the size of the fractions at every step *)
 Definition vdiv (n : val) (x : val) : val :=
-  match n, x with Some n, Some q => if Qeq_bool n 0 then None else Some (q / n)%Q | _, _ => None end.
+  match n, x with Some n, Some q => if Qeq_bool n 0 then None else Some (Qred (q / n))%Q | _, _ => None end.
 Definition vmul (n : val) (x : val) : val :=
-  match n, x with Some n, Some q => Some (q * n)%Q | _, _ => None end.
+  match n, x with Some n, Some q => Some (Qred (q * n))%Q | _, _ => None end.
 Definition ediv (n : val) (x : eval) : eval :=
   match n, x with
-  | Some n, Some (c, v) => if Qeq_bool n 0 then None else Some ((c / n)%Q, v)
+  | Some n, Some (c, v) => if Qeq_bool n 0 then None else Some (Qred (c / n)%Q, v)
   | _, _ => None end.
 Definition emul (n : val) (x : eval) : eval :=
-  match n, x with Some n, Some (c, v) => Some ((c * n)%Q, v) | _, _ => None end.
+  match n, x with Some n, Some (c, v) => Some (Qred (c * n)%Q, v) | _, _ => None end.
 
 (* photutils.utils._stats.nanmax / nansum *)
 Definition qmax (a b : Q) : Q := if Qle_bool a b then b else a.
@@ -195,7 +197,7 @@ Fixpoint nanmax (l : list val) : val :=
               end
   end.
 Definition nansum (l : list val) : val :=
-  Some (fold_right (fun x acc => match x with Some a => (a + acc)%Q | None => acc end) 0%Q l).
+  Some (fold_right (fun x acc => match x with Some a => Qred (a + acc)%Q | None => acc end) 0%Q l).
 
 (* ---------- encircled-energy interpolators (curve_of_growth.py:284-352) ---------- *)
 Fixpoint all_some (l : list val) : option (list Q) :=
@@ -421,8 +423,8 @@ Record case := {
 (* a float written as mantissa * 2^exponent *)
 Definition Q2 (m e : Z) : Q :=
   if 0 <=? e then inject_Z (m * 2 ^ e) else Qmake m (Z.to_pos (2 ^ (- e))).
-Definition scale_v (s : Q) (x : val) : val := option_map (fun q => (q * s)%Q) x.
-Definition scale_e (s : Q) (x : eval) : eval := option_map (fun '(c, v) => (c, (v * s * s)%Q)) x.
+Definition scale_v (s : Q) (x : val) : val := option_map (fun q => Qred (q * s)%Q) x.
+Definition scale_e (s : Q) (x : eval) : eval := option_map (fun '(c, v) => (Qred c, Qred (v * s * s)%Q)) x.
 
 Definition raw_arrays0 (c : case) : list val * list eval * option (list val) * list val * list Q :=
   let ph := photometry (k_data c) (k_err c) (k_umask c) (k_apers c) in
